@@ -354,7 +354,7 @@ Ltac upd_me me :=
 Lemma L3_exec : forall s i w me x s',
   L0 {| sh := s; io := i; wk := w |} -> L1 {| sh := s; io := i; wk := w |} ->
   L3' P {| sh := s; io := i; wk := w |} ->
-  wpc (w me) = WSvConn -> connected s = true ->
+  wpc (w me) = WSvWc ->
   execs s' = execs s ++ [w_cur (w me)] -> units s' = units s ++ [UResp (w_cur (w me)) 0] ->
   obs s' = obs s -> infl s' = infl s -> wire s' = wire s -> produced s' = produced s ->
   discarded s' = discarded s -> requests s' = requests s -> connected s' = connected s -> cut s' = cut s ->
@@ -364,14 +364,14 @@ Lemma L3_exec : forall s i w me x s',
   (in_task (wpc x) = false -> length (r_writes (desc P (w_cur (w me)))) = 0) ->
   L3' P {| sh := s'; io := i; wk := upd w me x |}.
 Proof.
-  intros s i w me x s' HL0 HL1 HL3 Hpc Hconn E1 E2 E3 E4 E5 E6 E7 E8 E9 E10 X1 X2 X3 X4 X6 X8 X9 X10.
+  intros s i w me x s' HL0 HL1 HL3 Hpc E1 E2 E3 E4 E5 E6 E7 E8 E9 E10 X1 X2 X3 X4 X6 X8 X9 X10.
   assert (Hown : wk_owner (wpc (w me)) = true) by (rewrite Hpc; reflexivity).
   pose proof (owner_others_notask _ me HL1 Hown) as Hoth. cbn [sh io wk] in *.
   assert (Hnt : forall j, in_task (wpc (w j)) = false).
   { intro j. destruct (Nat.eq_dec j me) as [->|N]; auto. rewrite Hpc. reflexivity. }
   assert (Hfme : wk_fl (wpc (w me)) = None) by (rewrite Hpc; reflexivity).
   destruct HL3 as [A B D E F G H C I J K L M N]. cbn [sh io wk] in *.
-  pose proof (L Hnt Hconn) as Hall.
+  pose proof (L Hnt) as Hall.
   assert (FE : forall f, FlInv s f -> FlInv s' f) by (intros f0 X; unfold FlInv in *; rewrite E3, E4; exact X).
   split; cbn [sh io wk]; unfold transport, tr_l, kept in *; rewrite ?E1, ?E2, ?E3, ?E4, ?E5, ?E6, ?E7, ?E8, ?E9, ?E10; intros; eauto.
   all: try congruence.
